@@ -41,10 +41,10 @@ func WorkerMain(handle func(task json.RawMessage) any) {
 
 // TaskOutcome is what the pool reports per task.
 type TaskOutcome struct {
-	Index   int
-	Result  json.RawMessage
-	Crashed bool
-	Stderr  string // tail of the worker's stderr when it crashed
+	Index    int
+	Result   json.RawMessage
+	Crashed  bool
+	Stderr   string // tail of the worker's stderr when it crashed
 	TimedOut bool
 }
 
